@@ -292,6 +292,13 @@ func (fc *followerController) NewTerm(req *proto.NewTermRequest) (*proto.NewTerm
 	fc.status = proto.ServingStatus_FENCED
 	fc.closeStreamNoMutex(nil)
 
+	// The entries that were already appended, while their sync was still
+	// pending, are part of the log: they have to be included in the head
+	// entry that we report
+	if err := fc.wal.Sync(context.Background()); err != nil {
+		return nil, err
+	}
+
 	lastEntryId, err := getLastEntryIdInWal(fc.wal)
 	if err != nil {
 		fc.log.Warn(
